@@ -93,7 +93,8 @@ Definition dispatch_c05s (ts : list tok) : list tok :=
 Definition dispatch_c05 (ts : list tok) : list tok :=
   match ts with
   | op :: rest => if is_word "c05s" op then dispatch_c05s ts else
-  match ts with
+  (* an eighth word says how certificate, key and CA reach the configuration (text or file names): the decision does not depend on it *)
+  match (match ts with [a0; a1; a2; a3; a4; a5; a6; _] => [a0; a1; a2; a3; a4; a5; a6] | _ => ts end) with
   | [op; k; sc; TI ins; cc; TI req; TI must] =>
     if is_word "c05" op then
       match connect (carrier_of k) (scert_of sc) (Z.eqb ins 1) (ccert_of cc) (Z.eqb req 1) (Z.eqb must 1) with
